@@ -110,6 +110,7 @@ type Opts struct {
 	BatchCount   int    // write-cache flush batch count limit (default 2)
 	Threshold    uint64 // write-cache batch threshold in marshaled bytes (default: empty-payload object + 30)
 	RmBatch      int    // GC remover batch size (default 100)
+	WCMaxSize    uint64 // write-cache capacity in bytes (0 = the package default): larger objects bypass the cache
 	RemoverTicks bool   // let the GC remover timer fire (otherwise its interval never elapses... it is still armed once)
 	// EngineExpiredCallback installs the engine's handling of expired objects at shard level:
 	// skip locked objects, delete the others (mirrors StorageEngine.processExpiredObjects).
@@ -208,14 +209,18 @@ func New(s *sched.S, root string, o Opts) (*World, error) {
 		}
 		return nil, false
 	}
+	wcOpts := []writecache.Option{writecache.WithPath(w.WCDir()), writecache.WithFlushWorkersCount(o.Workers),
+		writecache.WithMaxFlushBatchCount(o.BatchCount), writecache.WithMaxFlushBatchThreshold(o.Threshold),
+		writecache.WithNoSync(true), writecache.WithLogger(zap.NewNop())}
+	if o.WCMaxSize > 0 {
+		wcOpts = append(wcOpts, writecache.WithMaxCacheSize(o.WCMaxSize))
+	}
 	opts := []shard.Option{
 		shard.WithLogger(zap.NewNop()),
 		shard.WithBlobstor(Stor{w.FST, w}),
 		shard.WithMetaBaseOptions(metaOpts(w.MetaPath(), w.Epoch)...),
 		shard.WithWriteCache(o.WriteCache),
-		shard.WithWriteCacheOptions(writecache.WithPath(w.WCDir()), writecache.WithFlushWorkersCount(o.Workers),
-			writecache.WithMaxFlushBatchCount(o.BatchCount), writecache.WithMaxFlushBatchThreshold(o.Threshold),
-			writecache.WithNoSync(true), writecache.WithLogger(zap.NewNop())),
+		shard.WithWriteCacheOptions(wcOpts...),
 		shard.WithRemoverBatchSize(o.RmBatch),
 		shard.WithGCRemoverSleepInterval(time.Hour),
 		shard.WithContainerPayments(payments{}),
